@@ -3,7 +3,7 @@ C06 output types, C07 presentations, C15 purity / repeatability / history indepe
 import itertools
 import z3
 from .common import *   # noqa: F401,F403
-from .common import (CONCRETE, prtpy, out, part_alg, pack_alg, objective, cg_kwargs, item_vars, numbers, present, named, names_of,
+from .common import (CONCRETE, prtpy, out, part_alg, pack_alg, objective, cg_kwargs, item_vars, numbers, present, named, names_of, restore_state,
                      zsum, zmax, zmin, zi, zq, multiset_eq, sub_multiset, objective_z, describe, NAMES, SymNum, npshim)
 from .part import alg_kwargs, install_stubs
 
@@ -177,7 +177,56 @@ class Multi:
 
     # ------------------------------------------------------------------ C15
     def c15(self, c, idx, bi, xs, vals):
+        restore_state()
+        try:
+            self.c15_body(c, idx, bi, xs, vals)
+        finally:
+            restore_state()
+
+    def variant(self, c, bi, items, which):
+        """the same algorithm on a related request: another bin size / bin count, or the items in another order with one more item"""
+        try:
+            if self.family == 'part':
+                if which == 0:
+                    if self.alg == 'cbldm':
+                        return prtpy.partition(part_alg(self.alg), 2, list(reversed(items)) + [3], outputtype=out.PartitionAndSumsTuple, **self.kw)
+                    return prtpy.partition(part_alg(self.alg), self.size + 1, items, outputtype=out.PartitionAndSumsTuple, **self.kw)
+                return prtpy.partition(part_alg(self.alg), self.size, list(reversed(items)) + [3], outputtype=out.PartitionAndSumsTuple, **self.kw)
+            b = self.sz(c, bi)
+            b2 = (b + 3) if which == 0 else (b * 2)
+            return prtpy.pack(pack_alg(self.alg), b2, items, outputtype=out.PartitionAndSumsTuple)
+        except ValueError:
+            return None
+
+    def same_result(self, c, r1, r2, kind, msg):
+        if (r1 is None) != (r2 is None):
+            c.report(kind, msg + ' (one of the two calls raised)'); return False
+        if r1 is None:
+            return True
+        if [len(a) for a in r1[1]] != [len(a) for a in r2[1]]:
+            c.report(kind, msg + ': bin sizes %s vs %s' % ([len(a) for a in r1[1]], [len(a) for a in r2[1]])); return False
+        conj = [zi(a) == zi(b) for la, lb in zip(r1[1], r2[1]) for a, b in zip(la, lb)] + [zi(a) == zi(b) for a, b in zip(r1[0], r2[0])]
+        return c.check(kind, z3.And(conj), msg) if conj else True
+
+    def c15_body(self, c, idx, bi, xs, vals):
         n = self.n
+        # ---- histories of the SAME algorithm on related requests, each result compared with the same call in a fresh state
+        items0 = list(vals)
+        fresh_main = self.call(c, bi, list(items0))
+        for which in (0, 1):
+            restore_state()
+            fresh_var = self.variant(c, bi, list(items0), which)
+            restore_state()
+            self.call(c, bi, list(items0))                       # history: the main request first ...
+            after_var = self.variant(c, bi, list(items0), which)  # ... then the related one
+            if not self.same_result(c, fresh_var, after_var, 'depends-on-history', 'a related request to the same algorithm gives another answer after the main request than in a fresh state'):
+                return
+            restore_state()
+            self.variant(c, bi, list(items0), which)             # history: the related request first ...
+            after_main = self.call(c, bi, list(items0))          # ... then the main one
+            if not self.same_result(c, fresh_main, after_main, 'depends-on-history', 'the request gives another answer after a related request to the same algorithm than in a fresh state'):
+                return
+        restore_state()
         names = list(NAMES[:n])
         items = list(vals); snap = list(items)
         d = dict(zip(names, vals)); dsnap = list(d.items())
@@ -283,8 +332,61 @@ class _ValueTerms:
     def __contains__(self, it): return True
 
 
-def make(**params):
-    return Multi(**params)
+class Agree:
+    """C18, last clause: all exact algorithms report the same optimal value for the same objective on the same input,
+    never worse than any heuristic's - without an oracle, so it also runs on tier-B vectors beyond the oracle's size"""
+    def __init__(self, n, k, obj='diff', order='any', fixed=None, algs=None, heur=None, groups=None):
+        self.groups = groups
+        self.n = n; self.k = k; self.obj = obj; self.order = order
+        self.fixed = {int(a): b for a, b in (fixed or {}).items()}
+        self.algs = algs; self.heur = heur
+
+    def setup(self, c):
+        idx = item_vars(c, self.n, 0, self.order, fixed=self.fixed, groups=self.groups)
+        c.ns['x'] = [c.zvars[i] for i in idx]
+        return (idx,)
+
+    def fn(self, c, idx):
+        n, k, on = self.n, self.k, self.obj
+        xs = [c.zvars[i] for i in idx]
+        names = list(NAMES[:n]); vals = dict(zip(names, numbers(c, idx, self.fixed))); zx = dict(zip(names, xs))
+        exact = [a for a in (self.algs or (['ckk', 'snp', 'rnp', 'cg', 'dp'] if on == 'diff' else ['cg', 'dp'])) if not (a == 'cbldm' and k != 2)]
+        heur = list(self.heur) if self.heur is not None else ['greedy', 'kk', 'roundrobin', 'multifit']
+        res = {}
+        for a in exact + heur:
+            kw = alg_kwargs(a, on if a in ('cg', 'dp') else None, None, 2 if a == 'multifit' else None)
+            try:
+                r = prtpy.partition(part_alg(a), k, names, valueof=vals.__getitem__, outputtype=out.PartitionAndSumsTuple, **kw)
+            except Exception as e:
+                c.report('exception', '%s raised %s: %s' % (a, type(e).__name__, e)); return
+            zs = [zsum(zx[t] for t in l) for l in r[1]]
+            zs = zs + [z3.IntVal(0)] * (k - len(zs))
+            res[a] = objective_z(on, zs)
+        c.outcome = {'algorithms': exact + heur}
+        first = exact[0]
+        c.check('exact-solvers-disagree', z3.And([res[a] == res[first] for a in exact[1:]]) if len(exact) > 1 else z3.BoolVal(True),
+                'exact algorithms %s report different optimal %s values' % (exact, on))
+        if heur:
+            c.check('heuristic-better-than-exact', z3.And([res[first] <= res[h] for h in heur]), 'a heuristic returned a better %s value than the exact algorithms' % on)
+
+
+def make(what=None, **params):
+    if what == 'agree':
+        return Agree(**params)
+    return Multi(what=what, **params)
+
+
+def agree_job(n, k, mandatory=True, vector=None, holes=None, **kw):
+    params = dict(what='agree', n=n, k=k, **kw)
+    jid = 'agree (%d,%d) %s' % (n, k, ' '.join('%s=%s' % (a, ','.join(map(str, b)) if isinstance(b, list) else b) for a, b in sorted(kw.items())))
+    if vector is not None:
+        items = vector['items']
+        params['fixed'] = {str(i): v for i, v in enumerate(items) if i not in holes}
+        params['n'] = len(items)
+        jid = 'tierB agree %s k=%d holes=%s %s %s' % (vector['name'], k, list(holes), kw.get('obj', 'diff'), ','.join(kw.get('algs') or ['all']))
+    j = {'id': jid, 'factory': 'harness.multi:make', 'params': params, 'loose': True}
+    if not mandatory: j['mandatory'] = False
+    return j
 
 
 def job(what, alg, n, mandatory=True, **kw):
